@@ -108,7 +108,8 @@ def c01():
     return {
         "props_file": "Props/C01.v",
         "theorems": ["C01_partition", "C01_every_step", "C01_failed_fit", "C01_nonvacuous",
-                     "C01_labels", "C01_labels_partition", "C01_refine_labels", "C01_labels_nonvacuous", "C01_fit_stops_at_first_bad"],
+                     "C01_labels", "C01_labels_partition", "C01_refine_labels", "C01_labels_nonvacuous", "C01_fit_stops_at_first_bad",
+                     "C01_source_tie_fit_loop", "C01_source_tie_fit_buffers_loop", "C01_source_tie_fit_guards"],
         "suites": [suite_hist.suite_hist_api, suite_hist.suite_exhaustive, suite_hist.suite_boundary,
                    suite_hist.suite_seq_refine("C01")],
         "search": suite_hist.search_hist("C01"),
@@ -307,7 +308,8 @@ def c04():
         "theorems": ["C04_release_safe", "C04_no_release_when_disabled", "C04_source_tie", "C04_source_tie_ctor", "C04_source_tie_ctor_other", "C04_many_chunks", "C04_many_chunks_side_condition_needed",
                      "C04_chunks", "C04_run_chunks", "C04_packed_form", "C04_function",
                      "C04_release_example",
-                     "C04_do_fit_chunks_labelled_eq", "C04_do_fit_chunks_default_continue", "C04_run_many_chunks_labelled"],
+                     "C04_do_fit_chunks_labelled_eq", "C04_do_fit_chunks_default_continue", "C04_run_many_chunks_labelled",
+                     "C04_source_tie_release_position", "C04_source_tie_release_step", "C04_source_tie_array_never_releases"],
         "model_files": ["Model/Obs.v", "Model/Mem.v"],
         "suites": [suite_forms.suite_forms, suite_forms.suite_mmap, __import__('suite_numpysem').suite_numpysem],
         "search": suite_forms.search_c04,
